@@ -33,6 +33,29 @@ class G:
             out.append('%s%s: %s;' % (name, '^' if elided else '', show(rx, 0) if rx is not None else ''))
         return '\n'.join(out) + '\n'
 
+    def text_permuted(self, rng):
+        """the same declarations in a random order (token list split into several declarations)"""
+        decls = []
+        toks = list(self.tokens)
+        rng.shuffle(toks)
+        k = rng.randint(1, min(3, len(toks)))
+        cuts = sorted(rng.sample(range(1, len(toks)), k - 1)) if k > 1 else []
+        prev = 0
+        for c in cuts + [len(toks)]:
+            decls.append('token ' + ' '.join(toks[prev:c]) + ';')
+            prev = c
+        if self.skip:
+            decls.append('skip ' + ' '.join(self.skip) + ';')
+        if self.right:
+            decls.append('right ' + ' '.join(self.right) + ';')
+        decls.append('start %s;' % self.start)
+        if self.parts:
+            decls.append('part ' + ' '.join(self.parts) + ';')
+        for name, elided, rx in self.rules:
+            decls.append('%s%s: %s;' % (name, '^' if elided else '', show(rx, 0) if rx is not None else ''))
+        rng.shuffle(decls)
+        return '\n'.join(decls) + '\n'
+
     def rule(self, name):
         for n, e, r in self.rules:
             if n == name:
